@@ -105,10 +105,11 @@ def lane_polys(L, box, K, name, ell, qs, mps, cpu='accel'):
     return out, None
 
 
-def products(L, R, qs, tier):
+def products(L, R, qs, tier, ells=None, rename=None):
     K = KERNELS('quick')
     box = KBox(L)
-    ells = [0, 1, 2, 3] if tier == 'quick' else [0, 1, 2, 3, 5, 8, 17]
+    if ells is None:
+        ells = [0, 1, 2, 3] if tier == 'quick' else [0, 1, 2, 3, 5, 8, 17]
     ncmp = 0
     pairs = [('q120_vec_mat1col_product_baa', 'a', 'a'), ('q120_vec_mat1col_product_bbb', 'b', 'b'),
              ('q120_vec_mat1col_product_bbc', 'b', 'c'), ('q120x2_vec_mat1col_product_bbc', 'b', 'c'),
@@ -201,6 +202,10 @@ def products(L, R, qs, tier):
                                ('empty-product-is-zero', bad_zero, 'zero')):
             if rule.startswith('reference') and not base.startswith('q120_vec'):
                 continue
+            if rename is not None:
+                if rule not in rename:
+                    continue
+                rule = rename[rule]
             if bad:
                 R.ob(rule, base, 'refuted', detail='ell=%d: %s' % bad, key='%s:%s' % (base, key), witness={'ell': bad[0]})
             else:
